@@ -38,6 +38,15 @@ LIB = """{
   goodpatch: { n: 5 },
   mixin: { assert std.length(self.tags) < 3 : 'too many tags', tags+: ['x'] },
   tagged: { tags: ['a'] },
+  badmap: std.map(function(x, y) x, [10, 20, 30]),
+  badidx: std.mapWithIndex(function(i) i, [1, 2]),
+  badkey: std.mapWithKey(function(k) k, { p: 1 }),
+  mk: std.makeArray(3, function(i) if i == 1 then error 'mk1' else i + $.a),
+  selfobj: { a: 1, b: self.a + 1, n: std.length(self) },
+  removed: std.objectRemoveKey(self.selfobj, 'a'),
+  comp: [if i == 2 then error 'c2' else i * $.a for i in [1, 2, 3]],
+  ocomp: { [k]: if k == 'y' then error 'oy' else $.a for k in ['x', 'y'] },
+  keyed: std.sort([3, 1, 2], function(x) if x == 2 then error 'key2' else x),
 }"""
 
 SOURCES = [
@@ -88,8 +97,40 @@ SOURCES = [
     "local l = import 'lib.libsonnet'; l.tagged + l.mixin + l.mixin + l.mixin",
     "local l = import 'lib.libsonnet'; [l.tagged, l.mixin.tags]",
     "local l = std.extVar('lib'); std.length((l.tagged + l.mixin).tags)",
+    # 47.. thunks made by builtins (call thunks of std.map & co., elements that fail), derived objects and arrays
+    "std.extVar('lib').badmap",
+    "std.extVar('lib').badmap[1]",
+    "function(x) std.extVar('lib').badmap[x]",
+    "std.extVar('lib').mk",
+    "std.extVar('lib').mk[1]",
+    "std.extVar('lib').mk[0] + std.extVar('lib').mk[2]",
+    "std.extVar('lib').badidx[0]",
+    "std.extVar('lib').badkey",
+    "std.extVar('lib').selfobj",
+    "std.extVar('lib').selfobj.n",
+    "std.objectRemoveKey(std.extVar('lib').selfobj, 'a').n",
+    "std.objectRemoveKey(std.extVar('lib').selfobj, 'a').b",
+    "std.objectRemoveKey(std.extVar('lib').selfobj, 'a')",
+    "std.extVar('lib').removed",
+    "std.extVar('lib').removed.n",
+    "std.objectRemoveKey(std.extVar('lib').selfobj, 'b')",
+    "std.extVar('lib').comp",
+    "std.extVar('lib').comp[0]",
+    "std.extVar('lib').ocomp",
+    "std.extVar('lib').ocomp.x",
+    "std.extVar('lib').keyed",
+    "std.mergePatch(std.extVar('lib').selfobj, {c: 1})",
+    "std.extVar('lib').selfobj + {a: 5}",
+    "std.mapWithKey(function(k, v) v, std.extVar('lib').selfobj)",
+    "std.extVar('lib').lazy + std.extVar('lib').arr",
+    "std.reverse(std.extVar('lib').lazy)[0:2]",
+    "std.extVar('lib').lazy[1:]",
+    "local l = import 'lib.libsonnet'; [l.mk[0], l.comp[0], l.ocomp.x]",
+    "local l = import 'lib.libsonnet'; l.badmap[0]",
+    "local l = import 'lib.libsonnet'; std.objectRemoveKey(l.selfobj, 'a').n",
+    "local l = import 'lib.libsonnet'; l.selfobj.b",
 ]
-FUNCS = {20, 21, 22, 23}
+FUNCS = {20, 21, 22, 23, 49}
 STACKS = [5, 20, 45, 60, 130, 500]
 OPS = ["load", "load", "eval", "eval", "eval_again", "call", "manifest", "manifest", "gc", "stack", "drop"]
 
@@ -103,7 +144,11 @@ THEMES = [
     [7, 8, 9, 15, 19, 22],                              # object with a failing assertion
     [20, 21, 22, 23, 27, 28, 29],                       # functions and calls
     [16, 17, 18, 24, 25, 26, 12],                       # imports, fresh field names, type errors
-    list(range(47)),
+    [47, 48, 49, 53, 54, 75, 28, 0],                    # call thunks made by std.map & co. whose parameter check fails
+    [50, 51, 52, 63, 64, 65, 66, 67, 74],               # arrays / objects built by builtins and comprehensions with failing elements
+    [55, 56, 57, 58, 59, 60, 61, 62, 68, 69, 70, 76, 77],   # objects derived from a shared self-referential object
+    [71, 72, 73, 5, 6, 4],                              # arrays derived from shared arrays (elements are shared thunks)
+    list(range(len(SOURCES))),
 ]
 
 
@@ -364,5 +409,5 @@ def check_fs_history(case):
 
 CHECKS = [
     Check("session_files_history", check_fs_history, fs_case, quick=600, thorough=6000),
-    Check("history_vs_fresh_state", check_history, history_case, quick=400, thorough=5000),
+    Check("history_vs_fresh_state", check_history, history_case, quick=1200, thorough=20000),
 ]
